@@ -71,7 +71,7 @@ pub enum SnapshotUrgency {
 impl SnapshotUrgency {
     /// Calculate the urgency for a snapshot based on its age in days
     fn for_days(config: &ServerConfig, days: i64) -> Self {
-        if days >= config.snapshot_days * 3 / 2 {
+        if days as i128 >= config.snapshot_days as i128 * 3 / 2 {
             SnapshotUrgency::High
         } else if days >= config.snapshot_days {
             SnapshotUrgency::Low
@@ -82,7 +82,7 @@ impl SnapshotUrgency {
 
     /// Calculate the urgency for a snapshot based on its age in versions
     fn for_versions_since(config: &ServerConfig, versions_since: u32) -> Self {
-        if versions_since >= config.snapshot_versions * 3 / 2 {
+        if versions_since as u64 >= config.snapshot_versions as u64 * 3 / 2 {
             SnapshotUrgency::High
         } else if versions_since >= config.snapshot_versions {
             SnapshotUrgency::Low
